@@ -599,7 +599,20 @@ const CTS: [&str; 14] = [
   "application/x-whatever",
 ];
 
+/// byte strings around the boundaries of UTF-8 well-formedness and of header-value legality
+fn edge_bytes(rng: &mut Rng) -> Vec<u8> {
+  const ALPHABET: [u8; 30] = [
+    0x00, 0x09, 0x0a, 0x1f, 0x20, 0x61, 0x7e, 0x7f, 0x80, 0x8f, 0x90, 0x9f, 0xa0, 0xbf, 0xc0, 0xc1, 0xc2, 0xdf, 0xe0, 0xe1, 0xec, 0xed, 0xee,
+    0xef, 0xf0, 0xf1, 0xf3, 0xf4, 0xf5, 0xff,
+  ];
+  let n = rng.range(1, 5) as usize;
+  (0..n).map(|_| *rng.pick(&ALPHABET)).collect()
+}
+
 fn gen_ct(rng: &mut Rng) -> Option<Vec<u8>> {
+  if rng.chance(1, 6) {
+    return Some(edge_bytes(rng));
+  }
   match rng.below(20) {
     0 => None,
     1 => Some(vec![]),
@@ -618,6 +631,9 @@ fn gen_ct(rng: &mut Rng) -> Option<Vec<u8>> {
 }
 
 fn gen_ce(rng: &mut Rng) -> Option<Vec<u8>> {
+  if rng.chance(1, 10) {
+    return Some(edge_bytes(rng));
+  }
   match rng.below(16) {
     0..=5 => None,
     6..=8 => Some(b"br".to_vec()),
